@@ -26,8 +26,8 @@ requests presenting the same id in some order, arbitrarily interleaved with othe
   `c04_refsave_twice`; what is unique is the *replacement* (first reference save, the only one that mints).
 * §4 (part 2) `c04_req_mints` (what a request presenting `X` can do to the id counter: nothing / deletion cookie and a
   brand-new session / rotation of `X`), `RotatesAt`, **`c04_one_mint_per_due_id`** (at most one step of a history mints
-  an id for `X` by rotation), `c04_presented_mints_once` (of the requests presenting `X`, at most one mints without
-  sending the deletion cookie); `hist4_split`, `hist4_at`, `rot4_later` (boundaries of a history).
+  an id for `X` by rotation; as a count: `c04_rotation_count`), `c04_presented_mints_once` / `c04_mints_count` (of the
+  requests presenting `X`, at most one mints without sending the deletion cookie); `hist4_split`, `hist4_at`, `rot4_later` (boundaries of a history).
 * §5 (part 3) `ServedAt`, `served_root`, **`c04_same_session`** (all requests presenting `X` that are given a session
   without a deletion cookie are given ids with the same session number `rootOf`, that of `X`), `c04_same_handle`.
 * §6 non-vacuity (`c04_script`: eviction + reload, purge, automatic and explicit rotation, the due id presented three
@@ -848,6 +848,30 @@ theorem c04_presented_mints_once (le : ID → ID → Bool) (cfg : Cfg) (ck : Coo
     ¬ (MintsFor le { cfg := cfg, ck := ck } hist k X ∧ MintsFor le { cfg := cfg, ck := ck } hist k' X) :=
   fun ⟨h1, h2⟩ => c04_one_mint_per_due_id le cfg ck hist hok X hkk
     ⟨mintsFor_rotates le cfg ck hist hok h1, mintsFor_rotates le cfg ck hist hok h2⟩
+
+/-- … as a count: any list of distinct steps that all mint an id for `X` by rotation has at most one element. -/
+theorem c04_rotation_count (le : ID → ID → Bool) (cfg : Cfg) (ck : CookieCfg) (hist : List (Orc × Op))
+    (hok : Hist4OK le { cfg := cfg, ck := ck } hist) (X : ID) (ks : List Nat) (hnd : ks.Nodup)
+    (hall : ∀ k ∈ ks, RotatesAt le { cfg := cfg, ck := ck } hist k X) : ks.length ≤ 1 := by
+  match ks, hnd, hall with
+  | [], _, _ => simp
+  | [_], _, _ => simp
+  | a :: b :: rest, hnd, hall =>
+    exfalso
+    have hab : a ≠ b := by
+      intro e; subst e
+      exact (List.nodup_cons.1 hnd).1 List.mem_cons_self
+    have ha := hall a List.mem_cons_self
+    have hb := hall b (List.mem_cons_of_mem _ List.mem_cons_self)
+    rcases Nat.lt_or_gt_of_ne hab with h | h
+    · exact c04_one_mint_per_due_id le cfg ck hist hok X h ⟨ha, hb⟩
+    · exact c04_one_mint_per_due_id le cfg ck hist hok X h ⟨hb, ha⟩
+
+/-- **the number of requests that present `X` and mint without refusing it is at most one.** -/
+theorem c04_mints_count (le : ID → ID → Bool) (cfg : Cfg) (ck : CookieCfg) (hist : List (Orc × Op))
+    (hok : Hist4OK le { cfg := cfg, ck := ck } hist) (X : ID) (ks : List Nat) (hnd : ks.Nodup)
+    (hall : ∀ k ∈ ks, MintsFor le { cfg := cfg, ck := ck } hist k X) : ks.length ≤ 1 :=
+  c04_rotation_count le cfg ck hist hok X ks hnd (fun k hk => mintsFor_rotates le cfg ck hist hok (hall k hk))
 
 /-! ## 5. part 3 — all of them receive the same session -/
 
